@@ -283,7 +283,10 @@ def helper_fns(fb):
             continue
         tys = [cr.types[l["ty"]] for l in b["locals"][1:b["arg_count"] + 1]]
         if tys and tys[-1]["k"] == "adt" and tys[-1]["adt"].endswith("InOutBuf") and tys[0]["k"] == "ref":
-            out.append(b)
+            # a buffer of BLOCKS (helpers over byte buffers are covered by the end-to-end terms)
+            el = [a["ty"] for a in tys[-1].get("args", []) if "ty" in a]
+            if el and cr.types[el[0]]["k"] in ("adt", "alias") and cr.types[b["locals"][0]["ty"]]["k"] == "tuple":
+                out.append(b)
     return cr, out
 
 
